@@ -144,9 +144,128 @@ def decodes(payload):
         return False, None
 
 
+def run_reconnect_case(seed, i, r):
+    """The same TcpConnection object is used for one connection after the other (as TCPTransport does for the connections it
+    opens): the first one ends while only the beginning of a frame has arrived; what is sent on the second one has to be
+    delivered completely and in order, and the second connection has to stay up."""
+    install_virtual_time()
+    CLK.reset()
+    net = socksim.reset_net()
+    socksim.install()
+    bufsize = r.choice([16, 64, 512, 8192])
+    res = {'runs': 1, 'violations': [], 'sit': {}, 'obs': {}, 'escaped': {}, 'inconclusive': None, 'nontrivial_fps': []}
+    net.current = '10.0.0.1'
+    lst = FakeSocket()
+    lst.bind(('10.0.0.1', 4321))
+    lst.listen(5)
+    B = End('10.0.0.2')
+    net.current = '10.0.0.2'
+    B.poller = SimPoller()
+    B.conn = TcpConnection(poller=B.poller, timeout=10 ** 9, sendBufferSize=bufsize, recvBufferSize=max(1, bufsize),
+                           onMessageReceived=B.got.append, onDisconnected=lambda: setattr(B, 'disc', B.disc + 1))
+    viol = None
+    stats = collections.Counter()
+    try:
+        def connect_once():
+            net.current = '10.0.0.2'
+            B.conn.connect('10.0.0.1', 4321)
+            cs = [x for x in socksim.live_socks() if x.host == '10.0.0.2' and x.state == 'connecting']
+            socksim.complete_connect(cs[-1])
+            srv = lst.backlog.popleft()
+            net.current = '10.0.0.1'
+            A = End('10.0.0.1')
+            A.poller = SimPoller()
+            A.conn = TcpConnection(poller=A.poller, socket=srv, timeout=10 ** 9, sendBufferSize=65536, recvBufferSize=65536)
+            net.current = '10.0.0.2'
+            B.poller.poll(0)
+            return A, srv
+        A1, srv1 = connect_once()
+        if B.conn.state != CONNECTION_STATE.CONNECTED:
+            res['inconclusive'] = 'first connect did not complete'
+            return res
+        # first connection: a big frame, of which only a part arrives before the peer closes
+        big = os.urandom(r.choice([200, 3000, 40000]))
+        frame = frame_of(big)
+        net.current = '10.0.0.1'
+        A1.conn.send(big)
+        A1.poller.poll(0)
+        k = r.choice([1, 3, 4, 5, 17, len(frame) // 2, len(frame) - 1])
+        k = max(1, min(k, len(frame) - 1))
+        B.conn._TcpConnection__socket.inbuf += frame[:k]
+        del srv1.wire[:]
+        net.current = '10.0.0.2'
+        net.max_recv = r.choice([None, 1, 7])
+        B.poller.poll(0)
+        net.current = '10.0.0.1'
+        A1.conn.disconnect()
+        socksim.move_dying()
+        cli = B.conn._TcpConnection__socket
+        if cli is not None:
+            cli.eof = True
+        net.current = '10.0.0.2'
+        for _ in range(5):
+            B.poller.poll(0)
+        if B.conn.state != CONNECTION_STATE.DISCONNECTED:
+            res['inconclusive'] = 'first connection did not end'
+            return res
+        if B.got:
+            raise V('misdelivery', 'a frame of which only %d of %d bytes arrived was delivered' % (k, len(frame)), mode='reconnect')
+        # second connection on the same object
+        disc_before = B.disc
+        A2, srv2 = connect_once()
+        nm = r.randrange(1, 10)
+        msgs = [gen_msg(r, bufsize) for _ in range(nm)]
+        for m in msgs:
+            net.current = '10.0.0.1'
+            A2.conn.send(m)
+            for _ in range(200):
+                A2.poller.poll(0)
+                socksim.move(srv2, r.choice([1, 7, 64, None]))
+                net.current = '10.0.0.2'
+                net.max_recv = r.choice([None, 1, 5, 64])
+                B.poller.poll(0)
+                net.current = '10.0.0.1'
+                if not A2.conn._TcpConnection__writeBuffer and not srv2.wire:
+                    break
+        net.current = '10.0.0.2'
+        net.max_recv = None
+        for _ in range(20):
+            socksim.move(srv2)
+            B.poller.poll(0)
+        stats['reconnect_messages'] = nm
+        if B.got != msgs:
+            j = next((x for x in range(min(len(B.got), nm)) if B.got[x] != msgs[x]), min(len(B.got), nm))
+            raise V('lost_or_changed', 'second connection of the same connection object: %d of %d messages delivered (first difference at %d) '
+                    'after the first connection had ended with %d of %d bytes of a frame received' % (len(B.got), nm, j, k, len(frame)), mode='reconnect')
+        if B.conn.state != CONNECTION_STATE.CONNECTED or B.disc != disc_before:
+            raise V('spurious_disconnect', 'second connection of the same connection object was dropped although every frame on it was valid',
+                    mode='reconnect')
+    except V as v:
+        viol = v
+    except Exception as e:
+        import traceback
+        tb = traceback.extract_tb(e.__traceback__)
+        loc = [f for f in tb if 'pysyncobj' in f.filename]
+        if loc:
+            viol = V('exception_escaped', '%s: %s escaped from %s:%s' % (type(e).__name__, e, os.path.basename(loc[-1].filename), loc[-1].name),
+                     exc=type(e).__name__, corruption='reconnect')
+        else:
+            raise
+    res['obs'] = dict(stats)
+    res['obs']['cases_reconnect'] = 1
+    res['nontrivial_fps'] = [h32('reconnect', bufsize, stats.get('reconnect_messages'))]
+    if viol is not None:
+        rec = {'prop': 'C13', 'kind': viol.kind, 'msg': viol.msg, 'facts': viol.facts}
+        rec['replay'] = save_replay(seed, i, rec, {'mode': 'reconnect', 'bufsize': bufsize})
+        res['violations'].append(rec)
+    return res
+
+
 def run_case(prop, tier, seed, i):
     rs = (h32('e4', seed) % 100000) * 100000 + i
     r = random.Random(rs)
+    if i % 8 == 7:
+        return run_reconnect_case(seed, i, r)
     install_virtual_time()
     CLK.reset()
     bufsize = r.choice([1, 3, 16, 64, 512, 8192])
